@@ -121,7 +121,7 @@ impl Scenario for DrgScn {
             match k {
                 K_BYTES | K_FILL_BYTES => t.ops.push(Op::new(0, k).len(*rng.pick(&MENU)).seed(prev)),
                 K_FILL_SLICE => {
-                    let len = match rng.below(8) { 0 => 0, 1 => 64, 2 => 65, 3 => 128, _ => rng.below(300) as usize };
+                    let len = if rng.chance(1, 300) { crate::scn::hashctx::big_len(rng, false) } else { match rng.below(8) { 0 => 0, 1 => 64, 2 => 65, 3 => 128, _ => rng.below(300) as usize } };
                     t.ops.push(Op::new(0, k).len(len).seed(prev));
                 }
                 _ => t.ops.push(Op::new(0, k)),
@@ -134,7 +134,7 @@ impl Scenario for DrgScn {
         let rounds = match t.p("rounds") { 8 => 8, 12 => 12, _ => 20 };
         let mut seed = [0u8; 32];
         seed.copy_from_slice(&data(t.p("seed_seed"), 32));
-        let need: usize = t.ops.iter().map(|o| match o.k { K_U32 => 4, K_U64 => 8, K_FILL_SLICE => (o.len as usize).min(4096), _ => norm_menu(o.len as usize) }).sum();
+        let need: usize = t.ops.iter().map(|o| match o.k { K_U32 => 4, K_U64 => 8, K_FILL_SLICE => (o.len as usize).min(300_000), _ => norm_menu(o.len as usize) }).sum();
         // reference: the ChaCha keystream of the specification (independent block-function model; IETF layout, all-zero
         // nonce, from block 0). The library's own one-call ChaCha stream is computed as well, only to say in a
         // violation report whether the cipher or the generator deviates.
@@ -160,7 +160,7 @@ impl Scenario for DrgScn {
                     (guarded(|| real.fill_bytes(n, &prev)).map_err(|m| Violation::new("unexpected-panic", i, "fill_bytes", m, "drg"))?, n)
                 }
                 K_FILL_SLICE => {
-                    let n = (op.len as usize).min(4096);
+                    let n = (op.len as usize).min(300_000);
                     let mut buf = data(op.seed, n);
                     if buf.iter().any(|b| *b != 0) {
                         obs.hit("fault.dirty_destination");
